@@ -19,7 +19,7 @@ SW = ("serviceable", "non_serviceable", "hidden", "critSysTerm")
 AGREE = ["%s%s%s" % (o, e, s) for o in ("", "O") for e in ("", "E") for s in ("", "S4", "S05")] + ["q", "qOS4"]
 FIELDS = ["plid", "creator", "subsys", "commit", "sev", "comp", "src", "src:last"]
 HARNESSES = [
-    {"fn": "h_agree", "cases": AGREE, "quick_cases": ["q", "qOS4"], "timeout": {"quick": 150, "thorough": 900}},
+    {"fn": "h_agree", "cases": AGREE, "quick_cases": ["q", "qOS4"], "timeout": {"quick": 150, "thorough": 1600}},
     {"fn": "h_summary", "cases": FIELDS, "quick_cases": ["plid", "src", "commit", "src:last", "subsys", "sev"], "timeout": {"quick": 300, "thorough": 600}},
     {"fn": "h_hex", "cases": ["", "r"], "quick_cases": [""], "timeout": {"quick": 150, "thorough": 400}},
     {"fn": "h_order", "cases": ["n", "l", "a"], "timeout": {"quick": 120, "thorough": 400}},
